@@ -79,7 +79,7 @@ func elementPaths(v reflect.Value, parts []string) ([][]string, bool) {
 			return nil, false
 		}
 		var ks []string
-		for _, k := range v.MapKeys() {
+		for _, k := range sortedMapKeys(v) {
 			ks = append(ks, k.String())
 		}
 		sort.Strings(ks)
